@@ -1,6 +1,9 @@
 #!/bin/sh
-# stop every background check / TLC / harness process started from this sandbox session
-for pat in 'run_all' 'verif/check' './check' 'tlc2.TLC' 'bin/vh' 'seeded_run' 'confirm_seeded'; do
-  pgrep -f "$pat" | while read p; do [ "$p" != "$$" ] && kill "$p" 2>/dev/null; done
-done
+# stop background checks / TLC / harness processes (patterns are anchored at the start of the command line so that the
+# shell that runs this script is never matched)
+pkill -f '^/bin/sh \./tools/run_all' 2>/dev/null
+pkill -f '^[^ ]*python3[^ ]* \./check ' 2>/dev/null
+pkill -f '^[^ ]*python3[^ ]* tools/seeded_run' 2>/dev/null
+pkill -x java 2>/dev/null
+pkill -x vh 2>/dev/null
 exit 0
